@@ -600,7 +600,7 @@ func c07(w *core.World, r *core.Report) {
 	if c != nil {
 		ruleOffsetWithRunId(w, r, c)
 	}
-	r.Rule("R07.9", "the database said to hold the run-id fields already is the one the connection is in: the label the batch sender looks up is never the constant label of an item the sender made itself (keep-alive)", 1)
+	r.Rule("R07.10", "the database said to hold the run-id fields already is the one the connection is in: the label the batch sender looks up is never the constant label of an item the sender made itself (keep-alive)", 1)
 	if c != nil {
 		ruleKnownDbIsConnectionDb(w, r, c)
 	}
